@@ -41,6 +41,8 @@ func init() {
 			"ExtKeyUsage constants for which the library has no OID in its marshalling table make CreateCertificate panic; they are kept out of the generated domain and probed once under the guard (counted)",
 			"when an extra extension overrides a generated one, the corresponding parsed field is not compared (it reflects the caller's bytes)",
 			"Go's crypto/x509 is the differential parser; a certificate it refuses is reported under cert-differential:go-rejects",
+			"name-constraint IP ranges: address and mask of the same length are asserted (4+4, 16+16 incl. IPv4-mapped ::ffff:a.b.c.d/>=96 kept as 16+16, ::/0, host ranges, host bits set); " +
+				"net.IPNet values whose address and mask lengths differ (16-byte IPv4 address + 4-byte mask, 4-byte address + 16-byte mask) are counted only: at HEAD they are emitted as 20 bytes and the strict parser refuses the certificate",
 			"self-signed templates that are not CAs are verified with Certificate.CheckSignature (CheckSignatureFrom would refuse the parent for its CA bits, not for the signature)",
 		},
 	}, runC04)
@@ -185,19 +187,74 @@ func genIP(r *rand.Rand) net.IP {
 		ip[0] = 0x20 // not an IPv4-mapped address
 		return ip
 	default:
-		return pick(r, []net.IP{net.IPv4(127, 0, 0, 1).To4(), net.IPv6loopback, net.IPv4zero, net.IPv6unspecified, net.IPv4bcast.To4()})
+		return pick(r, []net.IP{net.IPv4(127, 0, 0, 1).To4(), net.IPv6loopback, net.IPv4zero, net.IPv4zero.To4(), net.IPv6unspecified, net.IPv4bcast.To4(), net.IPv4bcast,
+			net.ParseIP("10.1.2.3"), net.ParseIP("::ffff:192.0.2.1"), net.ParseIP("2001:db8::1"), net.ParseIP("::ffff:0:0"), net.ParseIP("64:ff9b::192.0.2.33")})
 	}
 }
 
-func genIPNet(r *rand.Rand) net.IPNet {
-	if r.IntN(2) == 0 {
-		m := net.CIDRMask(r.IntN(33), 32)
-		return net.IPNet{IP: net.IP(randBytes(r, 4)).Mask(m), Mask: m}
+// genIPNet returns an address range in one of the representations a caller can legitimately hold in a net.IPNet.
+// mixed reports the representations whose address and mask have different lengths (net.IPNet semantics bring them to the
+// same family; what CreateCertificate makes of them is counted, not asserted).
+func genIPNet(r *rand.Rand) (n net.IPNet, mixed bool) {
+	v4 := func() net.IP { return net.IP(randBytes(r, 4)) }
+	v6 := func() net.IP {
+		ip := net.IP(randBytes(r, 16))
+		ip[0] = 0x20 // not an IPv4-mapped address
+		return ip
 	}
-	m := net.CIDRMask(r.IntN(129), 128)
-	ip := net.IP(randBytes(r, 16))
-	ip[0] = 0x20
-	return net.IPNet{IP: ip.Mask(m), Mask: m}
+	prefix := func(max int) int {
+		switch r.IntN(6) {
+		case 0:
+			return 0
+		case 1:
+			return max
+		}
+		return r.IntN(max + 1)
+	}
+	keepHostBits := r.IntN(4) == 0 // the builder is not documented to mask the address
+	mk := func(ip net.IP, m net.IPMask) net.IPNet {
+		if !keepHostBits {
+			if masked := ip.Mask(m); masked != nil && len(masked) == len(ip) {
+				ip = masked
+			}
+		}
+		return net.IPNet{IP: ip, Mask: m}
+	}
+	switch r.IntN(12) {
+	case 0, 1, 2:
+		return mk(v4(), net.CIDRMask(prefix(32), 32)), false // 4 + 4
+	case 3, 4, 5:
+		return mk(v6(), net.CIDRMask(prefix(128), 128)), false // 16 + 16
+	case 6, 7, 8:
+		// an IPv4-mapped IPv6 range kept as genuine IPv6: 16-byte address ::ffff:a.b.c.d, 16-byte mask, prefix >= 96
+		ip := net.IPv4(byte(r.Uint32()), byte(r.Uint32()), byte(r.Uint32()), byte(r.Uint32()))
+		m := net.CIDRMask(96+prefix(32), 128)
+		if !keepHostBits {
+			for i := range ip {
+				ip[i] &= m[i]
+			}
+		}
+		return net.IPNet{IP: ip, Mask: m}, false
+	case 9:
+		return pick(r, []net.IPNet{
+			{IP: net.IPv6unspecified, Mask: net.CIDRMask(0, 128)}, {IP: net.IPv4zero.To4(), Mask: net.CIDRMask(0, 32)},
+			{IP: net.IPv4(127, 0, 0, 1).To4(), Mask: net.CIDRMask(32, 32)}, {IP: net.IPv6loopback, Mask: net.CIDRMask(128, 128)},
+			{IP: net.IPv4(10, 0, 0, 0).To4(), Mask: net.CIDRMask(8, 32)}, {IP: net.ParseIP("2001:db8::"), Mask: net.CIDRMask(32, 128)},
+		}), false
+	case 10:
+		// net.IPv4 yields the 16-byte form; with the natural 4-byte mask
+		m := net.CIDRMask(prefix(32), 32)
+		ip := net.IPv4(byte(r.Uint32()), byte(r.Uint32()), byte(r.Uint32()), byte(r.Uint32()))
+		if !keepHostBits {
+			ip = net.IP(append(append([]byte(nil), ip[:12]...), ip.Mask(m)...))
+		}
+		return net.IPNet{IP: ip, Mask: m}, true
+	default:
+		// 4-byte address with the 16-byte form of an IPv4 mask (ff x 12 || mask)
+		m4 := net.CIDRMask(prefix(32), 32)
+		m := net.IPMask(append(bytes.Repeat([]byte{0xff}, 12), m4...))
+		return net.IPNet{IP: v4().Mask(m4), Mask: m}, true
+	}
 }
 
 func genPolicyOID(r *rand.Rand) asn1.ObjectIdentifier {
@@ -267,6 +324,9 @@ type c04Case struct {
 	Overridden map[string]bool
 	RawName    *pkix.Name // the name RawSubject encodes, when RawSubject is set
 	Classes    map[string]int
+	// MixedIPRange: a name-constraint range whose address and mask lengths differ (16-byte IPv4 address with 4-byte mask or
+	// the reverse). Counted, not asserted.
+	MixedIPRange bool
 }
 
 func hexs(b []byte) string { return hex.EncodeToString(b) }
@@ -451,7 +511,13 @@ func genCert(r *rand.Rand) *c04Case {
 			var o []x509.GeneralSubtreeIP
 			var ds []string
 			for i := 0; i < 1+r.IntN(2); i++ {
-				n := genIPNet(r)
+				n, mixed := genIPNet(r)
+				if mixed {
+					if r.IntN(3) != 0 { // keep the mixed-length forms rare: at HEAD they make the whole certificate unparsable
+						n, mixed = net.IPNet{IP: net.IPv4(10, 0, 0, 0).To4(), Mask: net.CIDRMask(8, 32)}, false
+					}
+				}
+				cs.MixedIPRange = cs.MixedIPRange || mixed
 				o = append(o, x509.GeneralSubtreeIP{Data: n})
 				ds = append(ds, hexs(n.IP)+"/"+hexs(n.Mask))
 			}
@@ -686,11 +752,15 @@ func subtreeStrings(s []x509.GeneralSubtreeString) []string {
 func subtreeIPs(s []x509.GeneralSubtreeIP) []string {
 	var o []string
 	for _, v := range s {
-		ip := v.Data.IP
-		if ip4 := ip.To4(); ip4 != nil && len(v.Data.Mask) == 4 {
+		// a range is (address, mask) of one family: the mixed-length forms net.IPNet allows denote the IPv4 range
+		ip, mask := v.Data.IP, v.Data.Mask
+		if ip4 := ip.To4(); ip4 != nil && len(mask) == 4 {
 			ip = ip4
 		}
-		o = append(o, fmt.Sprintf("%x/%x|min=%d|max=%d", []byte(ip), []byte(v.Data.Mask), v.Min, v.Max))
+		if len(ip) == 4 && len(mask) == 16 {
+			mask = mask[12:]
+		}
+		o = append(o, fmt.Sprintf("%x/%x|min=%d|max=%d", []byte(ip), []byte(mask), v.Min, v.Max))
 	}
 	return o
 }
@@ -1086,8 +1156,16 @@ func runCertCase(c *core.Ctx, r *rand.Rand, id string, cs *c04Case) {
 		return
 	}
 	if err != nil {
+		if cs.MixedIPRange && strings.Contains(err.Error(), "IP address range of length") {
+			// address and mask of different lengths are written as they are (16+4 or 4+16 bytes); the strict parser refuses the result
+			c.Count("nc_ip_range_with_mixed_lengths_created_but_unparsable", 1)
+			return
+		}
 		c.Violation("cert-roundtrip:parse-failed:"+normErr(err), err.Error(), id, input)
 		return
+	}
+	if cs.MixedIPRange {
+		c.Count("nc_ip_range_with_mixed_lengths_round_tripped", 1)
 	}
 	for _, m := range checkCert(cs, parentSubject, parentRaw, got) {
 		c.Violation("cert-roundtrip:field:"+fieldLabel(m), m, id, input)
